@@ -1,0 +1,22 @@
+//go:build verif
+// +build verif
+
+package compress
+
+import "sync/atomic"
+
+var verifGzipCount, verifBrCount int64
+
+func verifCount(encoding string) {
+	switch encoding {
+	case EncodingGzip:
+		atomic.AddInt64(&verifGzipCount, 1)
+	case EncodingBrotli:
+		atomic.AddInt64(&verifBrCount, 1)
+	}
+}
+
+// VerifCounts number of calls of the gzip and brotli compressors so far
+func VerifCounts() (gzipCount, brCount int64) {
+	return atomic.LoadInt64(&verifGzipCount), atomic.LoadInt64(&verifBrCount)
+}
